@@ -426,7 +426,11 @@ func (req *SrvReq) Respond() {
 	}
 
 	if (status & reqFlush) == 0 {
-		conn.reqout <- req
+		select {
+		case conn.reqout <- req:
+		case <-conn.done:
+			/* the connection is closed: nobody is left to send the reply */
+		}
 	}
 
 	// process the next request with the same tag (if available)
